@@ -241,8 +241,7 @@ impl Mp4Track {
             for traf in self.trafs.iter() {
                 if let Some(ref trun) = traf.trun {
                     sample_count = sample_count
-                        .checked_add(trun.sample_count)
-                        .expect("attempt to sum trun sample_count with overflow");
+                        .saturating_add(trun.sample_count);
                 }
             }
             sample_count
@@ -373,7 +372,7 @@ impl Mp4Track {
 
     /// return `(traf_idx, sample_idx_in_trun)`
     fn find_traf_idx_and_sample_idx(&self, sample_id: u32) -> Option<(usize, usize)> {
-        let global_idx = sample_id - 1;
+        let global_idx = sample_id.checked_sub(1)?;
         let mut offset = 0;
         for traf_idx in 0..self.trafs.len() {
             if let Some(trun) = &self.trafs[traf_idx].trun {
@@ -381,9 +380,7 @@ impl Mp4Track {
                 if sample_count > (global_idx - offset) {
                     return Some((traf_idx, (global_idx - offset) as _));
                 }
-                offset = offset
-                    .checked_add(sample_count)
-                    .expect("attempt to sum trun sample_count with overflow");
+                offset = offset.checked_add(sample_count)?;
             }
         }
         None
